@@ -291,7 +291,7 @@ def rapid_seed(seed, shard, stage):
 
 
 def fail_dir(pid):
-    d = os.path.join(os.path.dirname(os.path.dirname(os.path.abspath(__file__))), "failures", pid)
+    d = os.path.join(os.environ.get("VERIF_OUT") or os.path.dirname(os.path.dirname(os.path.abspath(__file__))), "failures", pid)
     os.makedirs(d, exist_ok=True)
     return d
 
